@@ -332,6 +332,20 @@ def gen_steps(rng, clients, extra_ops=None):
   return steps
 
 
+def listener_knobs(rng, s, limits=False):
+  """Settings every listener run varies: what is logged about connections (the log
+  statements sit on the connection's code path) and, optionally, the connection limit
+  and the idle timeout."""
+  s['LOG_LISTENER_CONN_SUCCESS'] = rng.random() < 0.5
+  s['LOG_LISTENER_CONN_LOST'] = rng.random() < 0.5
+  if limits:
+    if rng.random() < 0.25:
+      s['MAX_RECEIVER_CONNECTIONS'] = rng.choice([1, 2, 3])
+    if rng.random() < 0.25:
+      s['METRIC_CLIENT_IDLE_TIMEOUT'] = rng.choice([5, 30])
+  return s
+
+
 def boot(cfg):
   return simboot.boot(cfg, use_threads=False)
 
